@@ -2,7 +2,9 @@
 (***************************************************************************)
 (* Trace validation for C09.  A record holds an instance x, a bound b and, *)
 (* per draft (3,4,6,7), the observed outcome of the five keyword forms     *)
-(*   <<minimum, exclusive minimum, maximum, exclusive maximum, multipleOf>>*)
+(*   <<minimum, exclusive minimum, maximum, exclusive maximum, multipleOf, *)
+(*     maximum next to a far exclusiveMaximum, minimum next to a far        *)
+(*     exclusiveMinimum (drafts 6/7)>>                                      *)
 (* each "valid" | "invalid" | "raise" | "n/a" (form not applicable: the    *)
 (* schema is not accepted, e.g. multipleOf <= 0).  Optional witness k, r   *)
 (* (bit sequences) with |x| = k*|b| + r, 0 <= r < |b| for dense operands.  *)
@@ -30,6 +32,8 @@ ClausesOf(r) ==
     \cup (IF Only(Col(r, 2), Out(MinOK(r.x, r.b, TRUE))) THEN {} ELSE {"exclusiveMinimum"})
     \cup (IF Only(Col(r, 3), Out(MaxOK(r.x, r.b, FALSE))) THEN {} ELSE {"maximum"})
     \cup (IF Only(Col(r, 4), Out(MaxOK(r.x, r.b, TRUE))) THEN {} ELSE {"exclusiveMaximum"})
+    \cup (IF Col(r, 6) \subseteq {Out(MaxPairOK(r.x, r.b)), "n/a"} THEN {} ELSE {"maximum_with_exclusiveMaximum"})
+    \cup (IF Col(r, 7) \subseteq {Out(MinPairOK(r.x, r.b)), "n/a"} THEN {} ELSE {"minimum_with_exclusiveMinimum"})
     \cup (IF "raise" \in Col(r, 5) THEN {"multipleOf_raises"} ELSE {})
     \cup (IF me = {"undecided"} THEN {"~undecided"}
           ELSE IF me = {"badwitness"} THEN {"~badwitness"}
